@@ -162,12 +162,20 @@ def list_helper_partition_twin(size: int, dlist: List[int], return_index: bool) 
 
 
 class _Arr(list):
-    """duck-typed stand-in for a numpy array's first axis (shape[0], a[i], a[i:j]);
-    block_distributed_array touches nothing else"""
+    """duck-typed stand-in for a two-dimensional numpy array seen along its first axis: each list
+    element stands for one row of 3 columns (shape, size, ndim, a[i], a[i:j])"""
 
     @property
     def shape(self):
-        return (len(self),)
+        return (len(self), 3)
+
+    @property
+    def size(self):
+        return 3 * len(self)
+
+    @property
+    def ndim(self):
+        return 2
 
     def __getitem__(self, k):
         r = list.__getitem__(self, k)
